@@ -19,6 +19,17 @@
 #include "net/socket_address.h"
 #include "net/utils.h"
 
+/* ./check C18 --replay: C18_ONLY_DESC=<case description> runs only the case(s) with exactly that description
+ * (robust against the tier the replay file was recorded in; indices differ between tiers) */
+static const char *only_desc; static uint64_t only_matched;
+static int
+want_case(void) {
+	if (NULL == only_desc) return (1);
+	if (0 != strcmp(vh_get_desc(), only_desc)) return (0);
+	only_matched ++;
+	return (1);
+}
+
 /* ------------------------------------------------------------------ harness-side address */
 typedef struct xaddr_s {
 	int	 fam;		/* AF_INET / AF_INET6 / AF_UNIX */
@@ -214,6 +225,7 @@ fmt_case(int with_port, const xaddr_t *x) {
 	if (with_port && x->fam == AF_INET6) tiny_caps = (0 == (v6_port_seq ++ % (vh_thorough ? 1009u : 97u)));
 	if (!vh_begin(tgt)) return;
 	cur_x = *x; cur_with_port = with_port;
+	if (!want_case()) return;
 	vh_publish_desc();
 	refs_build(&r, x, with_port);
 	sa = mk_sa(x);
@@ -466,7 +478,7 @@ judge(int p, const char *s, size_t n) {
 
 	if (!vh_begin(PNAME[p])) return;
 	cur_s = s; cur_n = n;
-	if (n > INMAX) return;
+	if (n > INMAX || !want_case()) return;
 	if (NULL == inbuf[n]) inbuf[n] = (char *)malloc(n);
 	in = inbuf[n];
 	memcpy(in, s, n);
@@ -573,9 +585,11 @@ parse_all(void) {
 int
 main(int argc, char **argv) {
 	vh_init(argc, argv);
+	only_desc = getenv("C18_ONLY_DESC");
 	/* parsers first, IPv6 formatting last: a defect that makes every IPv6 case raise ASan reports
 	 * (vh.h stops a shard after 20000 reports) must not hide the other sections */
 	parse_all();
 	fmt_all();
+	if (only_desc) printf("NOTE\treplay_matched=%llu\n", (unsigned long long)only_matched);
 	return (vh_finish());
 }
